@@ -104,6 +104,49 @@ func vf41NewPKI(t testing.TB) *vf41PKI {
 	leaf("Bself", true, ok0, ok1, false)
 	p.leafDER["CA"] = p.caDER
 
+	// certificates that imitate Avalid (none has its SHA-256)
+	pinned, err := x509.ParseCertificate(p.leafDER["Avalid"])
+	if err != nil {
+		t.Fatal(err)
+	}
+	imitate := func(name string, serial *big.Int, key *ecdsa.PrivateKey, signer *x509.Certificate, signerKey *ecdsa.PrivateKey,
+		extra [][]byte) {
+		tpl := &x509.Certificate{
+			SerialNumber: serial, Subject: pinned.Subject, NotBefore: ok0, NotAfter: ok1,
+			KeyUsage: x509.KeyUsageDigitalSignature, ExtKeyUsage: []x509.ExtKeyUsage{x509.ExtKeyUsageServerAuth},
+			BasicConstraintsValid: true, IPAddresses: []net.IP{net.ParseIP("127.0.0.1")},
+		}
+		parent := signer
+		if parent == nil { // self-signed
+			parent, signerKey = tpl, key
+		}
+		der, err2 := x509.CreateCertificate(rand.Reader, tpl, parent, &key.PublicKey, signerKey)
+		if err2 != nil {
+			t.Fatal(err2)
+		}
+		p.leafDER[name] = der
+		p.certs[name] = tls.Certificate{Certificate: append([][]byte{der}, extra...), PrivateKey: key}
+	}
+	// a look-alike CA: the subject DN of the real CA, another key
+	fakeKey := newKey()
+	fakeTpl := *caTpl
+	fakeDER, err := x509.CreateCertificate(rand.Reader, &fakeTpl, &fakeTpl, &fakeKey.PublicKey, fakeKey)
+	if err != nil {
+		t.Fatal(err)
+	}
+	fakeCA, err := x509.ParseCertificate(fakeDER)
+	if err != nil {
+		t.Fatal(err)
+	}
+	imitate("AfSame", pinned.SerialNumber, newKey(), fakeCA, fakeKey, [][]byte{fakeDER}) // same issuer DN + serial
+	imitate("AfSubj", big.NewInt(7001), newKey(), nil, nil, nil)                         // same subject / SANs
+	imitate("Areissued", big.NewInt(7002), p.certs["Avalid"].PrivateKey.(*ecdsa.PrivateKey), caCert, caKey,
+		[][]byte{p.caDER}) // same key and subject, another serial
+	fs, _ := x509.ParseCertificate(p.leafDER["AfSame"])
+	if string(fs.RawIssuer) != string(pinned.RawIssuer) || fs.SerialNumber.Cmp(pinned.SerialNumber) != 0 {
+		t.Fatal("vf41: the forged certificate does not carry the issuer DN and serial of the pinned one")
+	}
+
 	// the harness process trusts the harness CA (and nothing else): "chain valid" is meaningful
 	dir := t.TempDir()
 	f := filepath.Join(dir, "roots.pem")
@@ -229,12 +272,93 @@ func TestVerif_C41_Auth(t *testing.T) {
 		Form string `json:"form"`
 	}
 	type caseT struct {
-		Via    string  `json:"via"`
-		Served string  `json:"served"`
-		Ver    string  `json:"ver"`
-		FP     fpTok   `json:"fp"`    // single connection
-		Steps  []fpTok `json:"steps"` // or a sequence of connections to the same server in this process
+		Via    string   `json:"via"`
+		Served string   `json:"served"`
+		Ver    string   `json:"ver"`
+		FP     fpTok    `json:"fp"`    // single connection
+		Steps  []fpTok  `json:"steps"` // or a sequence of connections to the same server in this process
+		Certs  []string `json:"certs"` // or a sequence on ONE manager while the server changes its certificate
 	}
+	var swapCert atomic.Value
+	swapServer := func(ver string) *httptest.Server {
+		k := "swap/" + ver
+		if s, ok := servers[k]; ok {
+			return s
+		}
+		s := httptest.NewUnstartedServer(http.HandlerFunc(func(w http.ResponseWriter, r *http.Request) {
+			served.Add(1)
+			if r.Method == http.MethodGet {
+				w.Header().Set("Content-Type", "application/json")
+				w.Write(jwksJSON) //nolint:errcheck
+				return
+			}
+			w.WriteHeader(http.StatusOK)
+		}))
+		cfg := &tls.Config{GetCertificate: func(*tls.ClientHelloInfo) (*tls.Certificate, error) {
+			c := pki.certs[swapCert.Load().(string)]
+			return &c, nil
+		}}
+		if ver == "tls12" {
+			cfg.MaxVersion = tls.VersionTLS12
+		} else {
+			cfg.MinVersion = tls.VersionTLS13
+		}
+		s.Config.ErrorLog = nil
+		// (httptest.StartTLS installs its own certificate, which takes precedence when no SNI is sent)
+		s.Listener = tls.NewListener(s.Listener, cfg)
+		s.Start()
+		s.URL = "https://" + s.Listener.Addr().String()
+		servers[k] = s
+		return s
+	}
+	// decisions of ONE manager pinned to a certificate while the server changes what it presents
+	swapRun := func(c *caseT) []map[string]any {
+		srv := swapServer(c.Ver)
+		fp := pki.fingerprint(c.FP.Of, c.FP.Form)
+		var m *Manager
+		switch c.Via {
+		case "authhttp":
+			m = &Manager{Method: conf.AuthMethodHTTP, HTTPAddress: srv.URL + "/auth", HTTPFingerprint: fp,
+				ReadTimeout: 20 * time.Second}
+		case "jwks":
+			m = &Manager{Method: conf.AuthMethodJWT, JWTJWKS: srv.URL + "/jwks", JWTJWKSFingerprint: fp,
+				JWTClaimKey: "perms", ReadTimeout: 20 * time.Second}
+		default:
+			t.Fatalf("vf41: unknown via %q", c.Via)
+		}
+		steps := []map[string]any{}
+		for _, cert := range c.Certs {
+			swapCert.Store(cert)
+			m.RefreshJWTJWKS() // the next decision has to download the key set again
+			before := served.Load()
+			_, aerr := m.Authenticate(&Request{
+				Action:      conf.AuthActionRead,
+				Path:        "cam",
+				Protocol:    ProtocolRTSP,
+				Credentials: &Credentials{User: "u", Token: token},
+				IP:          net.ParseIP("127.0.0.1"),
+			})
+			reached := served.Load() - before
+			if (aerr == nil) != (reached == 1) {
+				t.Fatalf("vf41: manager answered %v but the server handled %d request(s)", aerr, reached)
+			}
+			rec := map[string]any{"success": aerr == nil, "eqfold": strings.EqualFold(fp, pki.hexOf(cert)), "fptext": fp,
+				"served": cert}
+			if aerr != nil {
+				msg := aerr.Wrapped.Error()
+				if !strings.Contains(msg, "fingerprint") && !strings.Contains(msg, "certificate") && !strings.Contains(msg, "x509") {
+					t.Fatalf("vf41: rejected for a reason that is not a certificate decision: %v", msg)
+				}
+				if len(msg) > 160 {
+					msg = msg[:160]
+				}
+				rec["err"] = msg
+			}
+			steps = append(steps, rec)
+		}
+		return steps
+	}
+
 	// one decision of a manager configured with the fingerprint: it has to connect to the TLS server
 	connect := func(c *caseT, f fpTok) map[string]any {
 		srv := server(c.Served, c.Ver)
@@ -285,6 +409,10 @@ func TestVerif_C41_Auth(t *testing.T) {
 		verifrt.Decode(t, raw, &line)
 		var c caseT
 		verifrt.Decode(t, line.C, &c)
+		if c.Certs != nil {
+			out.Emit(map[string]any{"id": line.ID, "c": line.C, "steps": swapRun(&c)})
+			return
+		}
 		if c.Steps == nil {
 			rec := connect(&c, c.FP)
 			rec["id"], rec["c"] = line.ID, line.C
